@@ -170,7 +170,7 @@ pub fn run(cfg: &Cfg) -> Report {
         }
     }
     // random larger 2D symbols (7-14 chambers) built constructively, branching up to 12
-    symbols.extend(gen::random_larger_2d_symbols(seed, cfg.tier.pick(4_000, 60_000), cfg.tier.pick(14, 24), &[1, 1, 2, 2, 3, 3, 4, 5, 6, 12]));
+    symbols.extend(gen::random_larger_2d_symbols(seed, cfg.tier.pick(4_000, 200_000), cfg.tier.pick(14, 24), &[1, 1, 2, 2, 3, 3, 4, 5, 6, 12]));
     // plus labelled variants: all renumberings are applied below, but also feed *distinct non-isomorphic*
     // symbols of equal size into the partition comparison (clause 4)
     let partition_lib: Mutex<BTreeMap<MSym, BTreeSet<Vec<usize>>>> = Mutex::new(BTreeMap::new());
@@ -180,7 +180,7 @@ pub fn run(cfg: &Cfg) -> Report {
         let perms: Vec<Vec<usize>> = if m.n <= 4 || (m.n == 5 && k % 4 == 0) {
             all_perms[m.n].clone()
         } else {
-            gen::some_perms1(m.n, cfg.tier.pick(6, 20), &mut rng)
+            gen::some_perms1(m.n, cfg.tier.pick(6, 30), &mut rng)
         };
         if let Some(c) = judge(ctx, m, &perms, k) {
             partition_lib.lock().unwrap().entry(c).or_default().insert(m.canon_bf());
